@@ -4,7 +4,8 @@
 // scene line: n (x y w h)*n  m (u v)*m  drag  steps dx dy  rz rw rh   reuse  drag2 steps2 d2   (integers; node indices 0-based; rz = -1: no resize,
 //             otherwise node rz is given width rw and height rh about its centre through topology::applyResizes after the drag;
 //             reuse = 1 (single-axis drags only): ONE TopologyConstraints instance serves all steps, the desired positions change between its solves;
-//             drag2 >= 0 (with reuse): after the first drag a second node is dragged steps2 times by d2 along the same axis, same instance)
+//             drag2 >= 0 (with reuse): after the first drag a second node is dragged steps2 times by d2 along the same axis, same instance;
+//             drag2 >= 0 (reuse = 0): second drag of |steps2| moves by d2 along x (steps2 > 0) or y (steps2 < 0), a new instance per move)
 // After every alg.run() the state is recorded: node rectangles and every edge path as (node, corner) points.
 #include "vtrace.h"
 #include <fstream>
@@ -59,7 +60,7 @@ int main(int argc, char **argv)
         bool thrown = false; std::string what;
         j.k("states").arr();
         snapshot(j, vs, tes);
-        std::vector<int> dims;
+        std::vector<int> dims, phases;   // per recorded state after the first: axis (2 = resize) and which drag it belongs to
         try {
             // what ColaTopologyAddon::moveTo does, one axis at a time, recorded after every solve()
             vpsc::Variables vars;
@@ -80,30 +81,37 @@ int main(int argc, char **argv)
                         for (int s = 0; s < n; s++) {
                             for (size_t i = 0; i < vs.size(); i++) vars[i]->desiredPosition = rs[i]->getCentreD(dim) + ((int)i == who ? by : 0);
                             bool interrupted; int loopBreaker = 100;
-                            do { interrupted = t.solve(); loopBreaker--; snapshot(j, vs, tes); dims.push_back(dimIdx); } while (interrupted && loopBreaker > 0);
+                            do { interrupted = t.solve(); loopBreaker--; snapshot(j, vs, tes); dims.push_back(dimIdx); phases.push_back(phase); } while (interrupted && loopBreaker > 0);
                         }
                     }
                 }
                 for (auto c : cs) delete c;
             } else
-            for (int s = 0; s < steps; s++) {
+            for (int phase = 0; phase < 2; phase++) {
+            // phase 1 (reuse = 0, drag2 >= 0): a second node is dragged |steps2| times by d2 along x (steps2 > 0) or y (steps2 < 0),
+            // a NEW TopologyConstraints instance per move like every other move here
+            if (phase == 1 && drag2 < 0) break;
+            int who = phase == 0 ? drag : drag2, nsteps = phase == 0 ? steps : std::abs(steps2);
+            int pdx = phase == 0 ? dx : (steps2 > 0 ? d2 : 0), pdy = phase == 0 ? dy : (steps2 < 0 ? d2 : 0);
+            for (int s = 0; s < nsteps; s++) {
                 for (int dimIdx = 0; dimIdx < 2; dimIdx++) {
-                    int delta = dimIdx == 0 ? dx : dy;
+                    int delta = dimIdx == 0 ? pdx : pdy;
                     if (delta == 0) continue;
                     vpsc::Dim dim = dimIdx == 0 ? vpsc::XDIM : vpsc::YDIM;
                     for (size_t i = 0; i < vs.size(); i++) {
-                        vars[i]->desiredPosition = rs[i]->getCentreD(dim) + ((int)i == drag ? delta : 0);
-                        vars[i]->weight = ((int)i == drag) ? 10000 : 1;
+                        vars[i]->desiredPosition = rs[i]->getCentreD(dim) + ((int)i == who ? delta : 0);
+                        vars[i]->weight = ((int)i == who) ? 10000 : 1;
                     }
                     topology::setNodeVariables(vs, vars);
                     vpsc::Constraints cs;
                     {
                         topology::TopologyConstraints t(dim, vs, tes, nullptr, vars, cs);
                         bool interrupted; int loopBreaker = 100;
-                        do { interrupted = t.solve(); loopBreaker--; snapshot(j, vs, tes); dims.push_back(dimIdx); } while (interrupted && loopBreaker > 0);
+                        do { interrupted = t.solve(); loopBreaker--; snapshot(j, vs, tes); dims.push_back(dimIdx); phases.push_back(phase); } while (interrupted && loopBreaker > 0);
                     }
                     for (auto c : cs) delete c;
                 }
+            }
             }
             for (auto v : vars) delete v;
             if (rz >= 0) {
@@ -115,13 +123,13 @@ int main(int argc, char **argv)
                 vpsc::Variables xvs, yvs; vpsc::Constraints xcs, ycs;
                 for (size_t i = 0; i < vs.size(); i++) { xvs.push_back(new vpsc::Variable((int)i, rs[i]->getCentreX())); yvs.push_back(new vpsc::Variable((int)i, rs[i]->getCentreY())); }
                 topology::applyResizes(vs, tes, nullptr, resizes, xvs, xcs, yvs, ycs);
-                snapshot(j, vs, tes); dims.push_back(2);
+                snapshot(j, vs, tes); dims.push_back(2); phases.push_back(2);
                 for (auto v : xvs) delete v; for (auto v : yvs) delete v; for (auto c : xcs) delete c; for (auto c : ycs) delete c;
             }
         } catch (vpsc::CriticalFailure &f) { thrown = true; what = f.what(); }
         catch (std::exception &e) { thrown = true; what = e.what(); }
         catch (...) { thrown = true; what = "unknown exception"; }
-        j.end().k("dims").ints(dims);
+        j.end().k("dims").ints(dims).k("phases").ints(phases);
         j.k("thrown").b(thrown);
  if (thrown) j.k("what").s(what);
         j.end();
